@@ -186,7 +186,22 @@ func stepOf(ctx context.Context) *stepEnv {
 // singleFails: the single-signature methods of the account fail while this request is handled.
 func singleFails(ctx context.Context, key uint64) bool {
 	e := stepOf(ctx)
-	return e != nil && e.singleFail[key]
+	if e == nil {
+		return false
+	}
+	if e.singleOnce[key] {
+		e.mu.Lock()
+		defer e.mu.Unlock()
+		if e.onceDone == nil {
+			e.onceDone = map[uint64]bool{}
+		}
+		if !e.onceDone[key] {
+			e.onceDone[key] = true
+			return true
+		}
+		return false
+	}
+	return e.singleFail[key]
 }
 
 // batchCallFails: a multi-signature call made ON this account fails as a whole for this request.
@@ -516,6 +531,9 @@ type stepEnv struct {
 	// batchOnce: only the FIRST multi-signature call of this request that has the member among its
 	// accounts leaves it out; a later call (a second round for the left-overs) signs for it
 	batchOnce map[uint64]bool
+	// singleOnce: only the FIRST single-signature call made on the account for this request fails
+	singleOnce map[uint64]bool
+	onceDone   map[uint64]bool
 	multiCalls int            // multi-signature calls made for this request so far
 	onceCall   map[uint64]int // the call that left the member out
 }
